@@ -131,6 +131,9 @@ fn directed(ctx: &mut Ctx) {
         "a + + a", "a * - a", "a & - a", "a and ! a", "a and - a", "! a and a", "a == - a", "- a == a", "- a + a", "a + - a * a", "a . - b", "a . ( b )", "a . \"s\"", "a . i1", "a . 0x1", "a . 00", "a . 1 . b",
         "date_time ( a )", "datetime ( a )", "to_upper ( a )", "uppercase ( a )", "to_lower ( a )", "lowercase ( a )", "duration ( a )", "trim ( a )", "round ( a )", "floor ( a )", "fract ( a )",
         "year ( a )", "month ( a )", "week ( a )", "day ( a )", "hour ( a )", "minute ( a )", "second ( a )", "float ( a )", "dec ( a )", "true", "false", "true ( a )", "false and true", "then", "else a", "and a", "a and", "a or or a",
+        // list indexes are usize: every digit string that fits is accepted with its exact value, leading zeros included
+        "a . 4294967295", "a . 4294967296", "a . 4294967297", "a . 65536", "a . 2147483648", "a . 18446744073709551615", "a . 18446744073709551616", "a . 99999999999999999999999", "a . b . 0000018446744073709551615 . c",
+        "a . 0000000000000000000000000000000000000001", "a . 9223372036854775808", "[ a ] . 4294967296", "a ( a ) . 4294967296 . 0", ": a . 4294967296", "a . 1 . 4294967296 . b . 8589934592",
         "@ a : a ; a", "a ; a", "a @ a", ": : a", ": i1", ": if", ": a : a", "a : a", "[ a : a ]", "{ a : a : a }",
     ];
     for t in texts {
